@@ -34,7 +34,7 @@ Section Rel.
   Inductive agree_obj : scope -> obj -> pyval -> Prop :=
   | AgFun : forall sc k a d w d',
       fkind_of sc w = Some k -> d = option_map clean d' -> agree_obj sc (OFun k a d) (VFun a w d')
-  | AgProp : forall d an va a d', agree_obj ScClass (OAttr KProperty d an va) (VFun a WProp d')
+  | AgProp : forall d an va a d', d = option_map clean d' -> agree_obj ScClass (OAttr KProperty d an va) (VFun a WProp d')
   | AgClass : forall sc x d c oo ih x' d' ns,
       d = option_map clean d' -> agree_ns ScClass c ns ->
       (sc = ScModule -> x = x') ->        (* EXCEPTION iff issubclass(cls, BaseException): for classes bound at module level *)
@@ -130,10 +130,11 @@ Definition kind_ok (sc : scope) (o : obj) (v : pyval) : Prop :=
   | _, _ => False
   end.
 
-(* the docstring pydoctor attaches to a function or class against __doc__ (before cleaning) *)
+(* the docstring pydoctor attaches to a function, property or class against __doc__ (before cleaning) *)
 Definition doc_ok (clean : text -> text) (o : obj) (v : pyval) : Prop :=
   match o, v with
   | OFun _ _ d, VFun _ _ d' => d = option_map clean d'
   | OClass _ d _ _ _, VClass _ d' _ => d = option_map clean d'
+  | OAttr KProperty d _ _, VFun _ WProp d' => d = option_map clean d'      (* a property: the getter's docstring *)
   | _, _ => True
   end.
